@@ -337,7 +337,7 @@ class Runner(object):
         cmd = self.cbmc_cmd(ob, gb, False)
         res.cmd = ' '.join(cmd).replace(wdir + '/', '')
         tmo = ob.timeout.get(self.tier, 600)
-        rc, out, errt, wall, rss, to = sh(cmd + ['--verbosity', '8'], timeout=tmo, env=env, mem_kb=MEM_KB, cwd=wdir)
+        rc, out, errt, wall, rss, to = sh(cmd + ['--verbosity', '8'], timeout=tmo, env=env, mem_kb=MEM_KB * (2 if getattr(ob, 'weight', 1) >= 4 else 1), cwd=wdir)
         res.rss_kb = rss
         if to:
             res.reason = 'timeout after %ds' % tmo
@@ -408,7 +408,7 @@ class Runner(object):
                 res.reason = 'witness build failed: ' + str(werr)[-500:]
                 return
             wcmd = self.cbmc_cmd(ob, wgb, True)
-            rc, out, errt, wall, rss, to = sh(wcmd, timeout=tmo, env=env, mem_kb=MEM_KB, cwd=wdir)
+            rc, out, errt, wall, rss, to = sh(wcmd, timeout=tmo, env=env, mem_kb=MEM_KB * (2 if getattr(ob, 'weight', 1) >= 4 else 1), cwd=wdir)
             wprops, _, wmsgs = parse_cbmc_json(out)
             wit = [p for p in (wprops or []) if 'WITNESS' in p.get('description', '')]
             if to or wprops is None or not wit:
